@@ -10,6 +10,7 @@ import json
 import logging
 import os
 import shutil
+import struct
 import sys
 import tempfile
 
@@ -251,6 +252,35 @@ def scenario_explicit_duration(wrapper, base, work):
         return {"want": {k: v[0] for k, v in want.items()}, "got": None, "error": type(ex).__name__ + ": " + str(ex)[:120]}
 
 
+def ogg_duration_ms(path):
+    """independent of the library: last granule position / sample rate of a Vorbis stream"""
+    data = open(path, "rb").read()
+    i = data.find(b"\x01vorbis")
+    rate = struct.unpack_from("<I", data, i + 7 + 4 + 1)[0]
+    last = data.rfind(b"OggS")
+    granule = struct.unpack_from("<q", data, last + 6)[0]
+    return 1000.0 * granule / rate
+
+
+def scenario_ogg_only(wrapper, base, work, ogg):
+    """an archive whose only sound is an OGG file: a PlayWav without explicit duration still gets the file's length"""
+    from richchk.io.mpq.starcraft_audio_files_io import StarCraftAudioFilesIo
+    from richchk.io.mpq.starcraft_mpq_io import StarCraftMpqIo
+
+    io = StarCraftMpqIo(wrapper)
+    m1 = os.path.join(work, "o1.scx")
+    StarCraftAudioFilesIo(wrapper).add_audio_files_to_mpq([ogg], base, m1)
+    member = "staredit\\wav\\" + os.path.basename(ogg)
+    chk = add_playwav(io.read_chk_from_mpq(m1), member, None)
+    m2 = os.path.join(work, "o2.scx")
+    want = ogg_duration_ms(ogg)
+    try:
+        io.save_chk_to_mpq(chk, m1, m2)
+        return {"want": want, "got": playwav_durations(io, m2).get(member), "error": None}
+    except Exception as ex:  # noqa: BLE001
+        return {"want": want, "got": None, "error": type(ex).__name__ + ": " + str(ex)[:120]}
+
+
 def scenario_sparse_wav(wrapper, base, work, free_slots):
     """a map whose sound table has free slots below used ones, then an audio import"""
     from richchk.editor.richchk.rich_chk_editor import RichChkEditor
@@ -312,6 +342,8 @@ def main():
             open(dest, "wb").write(b"previous complete destination content " * 50)
         elif spec["dest"] == "existing-empty":
             open(dest, "wb").close()      # an existing file of length 0 is an existing file
+        elif spec["dest"] == "symlink-to-base":
+            os.symlink(base, dest)        # e.g. latest.scx -> mymap_v1.scx: writing "latest" must not rewrite v1
         # how the caller spells the destination: the same file through a relative path, or a "~" path whose
         # expansion ($HOME) is the directory holding the existing file
         dest_arg = dest
@@ -393,6 +425,8 @@ def main():
                 res["scenario"] = scenario_stale_duration(wrapper, base, work)
             elif op == "scenario_explicit_duration":
                 res["scenario"] = scenario_explicit_duration(wrapper, base, work)
+            elif op == "scenario_ogg_only":
+                res["scenario"] = scenario_ogg_only(wrapper, base, work, spec["ogg"])
             elif op == "scenario_sparse_wav":
                 res["scenario"] = scenario_sparse_wav(wrapper, base, work, spec.get("free_slots", [0]))
         except BaseException as ex:  # noqa: BLE001
